@@ -5,6 +5,7 @@ import (
 	"encoding/json"
 	"fmt"
 	"math/rand"
+	"os"
 	"sync"
 	"sync/atomic"
 	"time"
@@ -26,6 +27,7 @@ type c27Case struct {
 	Seed    int64    `json:"seed"`
 	Auto    bool     `json:"auto_reconnect"`
 	Stall   bool     `json:"application_does_not_read_notifications,omitempty"`
+	Busy    bool     `json:"application_calls_the_api_between_reads_of_an_unbuffered_channel,omitempty"`
 	Steps   []string `json:"schedule"`
 	Outcome string   `json:"publish_outcome"`
 	Detail  string   `json:"detail,omitempty"`
@@ -37,6 +39,7 @@ type c27Srv struct {
 	heldAt  []int64             // logical time of their arrival
 	clock   int64
 	created int64 // logical time of the last CreateSubscription
+	lost    map[uint32]int // subscription -> notification messages "lost in flight", served by Republish
 	nextSub uint32
 	subs    map[uint32]bool
 	seq     uint32
@@ -132,7 +135,18 @@ func (s *c27Srv) handle(srv *refpeer.Server, sc *refpeer.SrvConn, m *refpeer.Msg
 	case *ua.RepublishRequest:
 		s.mu.Lock()
 		ok := s.subs[req.SubscriptionID]
+		serve := ok && s.lost[req.SubscriptionID] > 0
+		if serve {
+			s.lost[req.SubscriptionID]--
+		}
 		s.mu.Unlock()
+		if serve {
+			dcn := &ua.DataChangeNotification{MonitoredItems: []*ua.MonitoredItemNotification{{ClientHandle: 1, Value: &ua.DataValue{EncodingMask: ua.DataValueValue, Value: ua.MustVariant(int32(-1))}}}, DiagnosticInfos: []*ua.DiagnosticInfo{}}
+			eo := ua.NewExtensionObject(dcn)
+			eo.UpdateMask()
+			sc.Reply(m, &ua.RepublishResponse{ResponseHeader: refpeer.RespHeader(req, ua.StatusOK), NotificationMessage: &ua.NotificationMessage{SequenceNumber: req.RetransmitSequenceNumber, PublishTime: time.Now(), NotificationData: []*ua.ExtensionObject{eo}}})
+			return
+		}
 		if ok {
 			sc.Fault(m, ua.StatusBadMessageNotAvailable)
 		} else {
@@ -190,7 +204,7 @@ func c27One(c *fw.Ctx, cs c27Case) {
 		return
 	}
 	defer srv.Close()
-	st := &c27Srv{subs: map[uint32]bool{}}
+	st := &c27Srv{subs: map[uint32]bool{}, lost: map[uint32]int{}}
 	srv.Handler = func(sc *refpeer.SrvConn, m *refpeer.Msg) { st.handle(srv, sc, m) }
 	hs := &hookStats{hits: map[string]int64{}}
 	hr := rand.New(rand.NewSource(r.Int63()))
@@ -215,7 +229,7 @@ func c27One(c *fw.Ctx, cs c27Case) {
 	}
 	ccancel()
 	if err != nil {
-		c.Inconclusive("connect: " + classOf(err.Error()))
+		c.Inconclusive(fmt.Sprintf("connect: %s (case %d busy=%v stall=%v)", classOf(err.Error()), cs.Index, cs.Busy, cs.Stall))
 		return
 	}
 	closed := false
@@ -227,9 +241,33 @@ func c27One(c *fw.Ctx, cs c27Case) {
 		}
 	}()
 	notif := make(chan *opcua.PublishNotificationData, 4096)
-	if cs.Stall {
-		// the application does not read its channel: the publish loop may wait for it, API calls may not
+	if cs.Stall || cs.Busy {
+		// the application does not read its channel (Stall) or reads it unbuffered between API calls (Busy): the
+		// publish loop and the reconnect may wait for it, API calls may not
 		notif = make(chan *opcua.PublishNotificationData)
+	}
+	stopBusy := make(chan struct{})
+	busyDone := make(chan struct{})
+	var busyCalls int64
+	if cs.Busy {
+		go func() {
+			defer close(busyDone)
+			for {
+				// a burst of API calls, then one look at the channel
+				for k := 0; k < 300; k++ {
+					cl.SubscriptionIDs()
+				}
+				atomic.AddInt64(&busyCalls, 300)
+				select {
+				case <-stopBusy:
+					return
+				case <-notif:
+				case <-time.After(200 * time.Microsecond):
+				}
+			}
+		}()
+	} else {
+		close(busyDone)
 	}
 	var resumes int64 // Subscribe calls that have returned a subscription
 	var subs []*opcua.Subscription
@@ -300,6 +338,15 @@ func c27One(c *fw.Ctx, cs c27Case) {
 	cs.Steps = append(cs.Steps, fmt.Sprintf("%d outstanding publish request(s) answered with %s", n, cs.Outcome))
 	c.Journal(cs.Index, cs)
 	if cs.Outcome == "connection-lost" {
+		if cs.Busy {
+			// two messages per subscription were on their way when the connection broke: the reconnect fetches them
+			// again and hands them to the application
+			st.mu.Lock()
+			for id := range st.subs {
+				st.lost[id] = 2
+			}
+			st.mu.Unlock()
+		}
 		srv.DropConns(false)
 	}
 	// a second wave of calls runs concurrently with whatever the outcome sets off (reconnect, shutdown)
@@ -363,6 +410,15 @@ func c27One(c *fw.Ctx, cs c27Case) {
 		return
 	}
 	c.Class("settled:"+cl.State().String(), 1)
+	if cs.Busy {
+		close(stopBusy)
+		if !fw.WaitBeats(busyDone, 6000) {
+			cs.Detail = "the application's SubscriptionIDs call has not returned after 6000 heartbeats\n" + blockedDumpN(20000)
+			c.Violation("c27:api-call-blocked:"+fw.TopRepoFrame(blockedDumpOf("opcua.(*Client)")), fmt.Sprintf("schedule %v (application busy between reads): SubscriptionIDs is blocked for good", cs.Steps), cs)
+			return
+		}
+		c.Class("busy-application:api-calls-between-reads", atomic.LoadInt64(&busyCalls))
+	}
 	// a BadNoSubscription answer pauses the loop rightly unless a subscription was created while the request was
 	// outstanding: then the answer belongs to the past
 	if cl.State() == opcua.Connected && (cs.Outcome != "no-subscription" || resumedDuringHold) {
@@ -534,6 +590,9 @@ func c27Run(c *fw.Ctx) error {
 		cs.Auto = r.Intn(2) == 0
 		if i%9 == 4 {
 			cs.Stall, cs.Outcome = true, "notification"
+		}
+		if i%9 == 7 && os.Getenv("C27_NOBUSY") == "" {
+			cs.Busy, cs.Auto, cs.Outcome = true, true, "connection-lost"
 		}
 		c.Journal(i, cs)
 		c27One(c, cs)
